@@ -222,7 +222,28 @@ def run_chains(rep, n1=600, n2=2400):
             worst_mem = max(worst_mem, b[4] / float(max(a[4], 1)))
             if b[4] > 2.0 * max(a[4], 256):
                 hits.append(("MEM", b[1], "bytes allocated by ParseStatements per token grow with the input: %d at %d tokens, %d at %d tokens" % (a[4], a[2], b[4], b[2]), b[2], b[4]))
-    return hits, {"constructs": len(outs[0]), "sizes": [n1, n2], "max_growth_of_bytes_per_token": round(worst_mem, 2), "max_growth_of_steps_per_token": round(worst_steps, 2)}
+    # error amplification (k unclosed openers, then one token of 16*k bytes): what Parse allocates must stay within a generous
+    # linear bound in input bytes and tokens (observed: about a tenth of it)
+    amp_worst = 0.0
+    cases = os.path.join(verif.BUILD, "amplify_%s.txt" % rep.pid)
+    rc, out = verif.sh([PSEARCH, "gen", "-mode", "amplify", "-n", str(n1)], timeout=600)
+    open(cases, "w").write(out)
+    verif.parallel_map_files([PSEARCH, "run", "-E", str(E), "-B", str(B), "-mem", "1"], cases, cases + ".out", timeout=3000)
+    with open(cases) as fc, open(cases + ".out") as fo:
+        for c, o in zip(fc, fo):
+            p = o.rstrip("\n").split("\t")
+            try:
+                tk = int(p[1])
+                alloc = int(p[3].split(" ")[1]) if p[0] == "MEM" else 0
+            except (IndexError, ValueError):
+                continue
+            if p[0] in ("BUDGET", "SLOW", "PANIC"):
+                hits.append((p[0], c.strip(), p[3] if len(p) > 3 else "", tk, int(p[2])))
+            bound = 40 * (len(c.strip()) // 2) + 2000 * (tk + 16)
+            amp_worst = max(amp_worst, alloc / float(bound))
+            if alloc > bound:
+                hits.append(("MEM", c.strip(), "ParseStatements allocated %d bytes for %d input bytes / %d tokens (bound 40*bytes + 2000*tokens = %d): errors reported while unwinding amplify the input" % (alloc, len(c.strip()) // 2, tk, bound), tk, alloc))
+    return hits, {"constructs": len(outs[0]), "sizes": [n1, n2], "amplification_worst_fraction_of_bound": round(amp_worst, 3), "max_growth_of_bytes_per_token": round(worst_mem, 2), "max_growth_of_steps_per_token": round(worst_steps, 2)}
 
 
 def run_truncations(rep, n=1500):
